@@ -6,5 +6,5 @@ Require Import ExtrOcamlBasic.
 Extraction Language OCaml.
 Set Extraction Optimize.
 Cd "../ocaml/extracted".
-Extraction "Core.ml" read_model defect_b well_formed_b create hrun vcreate vrun ocreate orun mrun new_obj strip recognize all_translations denote acyclic_b altflat_b has_alt_b uncum tcost cum.
+Extraction "Core.ml" shift_count all_translations_a read_model defect_b well_formed_b create hrun vcreate vrun ocreate orun mrun new_obj strip recognize all_translations denote acyclic_b altflat_b has_alt_b uncum tcost cum.
 Cd "../../coq".
